@@ -3,6 +3,7 @@
 mod c12;
 mod c13;
 mod c14;
+mod c15;
 mod c16;
 mod json;
 mod out;
@@ -57,6 +58,7 @@ fn main() {
             "c12" => c12::replay(&line, &mut o),
             "c13" => c13::replay(&line, &mut o),
             "c14" => c14::replay(&line, &mut o),
+            "c15" => c15::replay(&line, &mut o),
             "c16" => c16::replay(&line, &mut o),
             _ => panic!("unknown property"),
         }
@@ -65,6 +67,7 @@ fn main() {
             "c12" => c12::run(tier, seed, &mut o),
             "c13" => c13::run(tier, seed, &mut o),
             "c14" => c14::run(tier, seed, &mut o),
+            "c15" => c15::run(tier, seed, &mut o),
             "c16" => c16::run(tier, seed, &mut o),
             _ => {
                 eprintln!("unknown property {}", prop);
